@@ -207,6 +207,11 @@ func (sb *schemaBuilder) buildUnionStruct(typ reflect.Type) error {
 			return fmt.Errorf("bad type %s: union type member must be a pointer to a struct, received %s", name, typ.String())
 		}
 
+		// The executor finds the member that is set by the name of its object.
+		if obj.Name != field.Name {
+			return fmt.Errorf("bad type %s: union type member %s must be registered under the name of its type, not as %s", name, field.Name, obj.Name)
+		}
+
 		if union.Types[obj.Name] != nil {
 			return fmt.Errorf("bad type %s: union type member may only appear once", name)
 		}
